@@ -28,6 +28,7 @@ type Ledger struct {
 	Log               []Call
 	FailAt            map[int]bool
 	ReadFail          map[atree.SlabID]bool
+	AllocFail         bool // GenerateSlabID fails (and allocates nothing)
 	Jitter            bool
 	n                 int
 	retrieved, stored int
@@ -99,6 +100,9 @@ func (l *Ledger) Retrieve(id atree.SlabID) ([]byte, bool, error) {
 }
 
 func (l *Ledger) GenerateSlabID(a atree.Address) (atree.SlabID, error) {
+	if l.AllocFail {
+		return atree.SlabID{}, ErrInjected
+	}
 	l.Idx[a]++
 	return MkID(a, l.Idx[a]), nil
 }
